@@ -30,4 +30,6 @@ def run(tier):
 def replay(payload):
     rp = chrun.replay_native(payload["harness"], payload["fn"], payload["argstr"])
     print(rp)
-    return 1 if (rp.get("returned") or "raised" in rp) else 0
+    if "raised" in rp or "error" in rp:
+        return 3
+    return 1 if rp.get("returned") else 0
